@@ -62,8 +62,14 @@ func genC16(t *rapid.T) C16Case {
 	}
 	c.Relay = genHTMLRelay(t)
 	c.DocKind = "sp-built"
-	if c.Flow != "BuildAuthBodyPost" && rapid.IntRange(0, 2).Draw(t, "arbitraryDoc") == 0 {
-		c.DocKind, c.DocXML = "arbitrary", genArbitraryDoc(t)
+	if c.Flow != "BuildAuthBodyPost" {
+		switch rapid.IntRange(0, 5).Draw(t, "arbitraryDoc") {
+		case 0, 1:
+			c.DocKind, c.DocXML = "arbitrary", genArbitraryDoc(t)
+		case 2:
+			// built (and signed, when there is a key) by a service provider that still has the PREVIOUS IdP endpoints
+			c.DocKind = "other-sp"
+		}
 	}
 	if _, ok := expectedSigner(c.SP); !ok {
 		c.SP.SignRequests = false
@@ -149,7 +155,13 @@ func normNL(s string) string {
 }
 
 func (c *C16Case) build(relay string) ([]byte, []byte, error) {
-	sp := c.SP.Build()
+	render := c.SP.Build()
+	sp := render // the instance that builds the document
+	if c.DocKind == "other-sp" {
+		o := c.SP
+		o.IdPSSO, o.IdPSLO = "https://previous-idp.example.org/sso?old=1", "https://previous-idp.example.org/slo"
+		sp = o.Build()
+	}
 	var doc *etree.Document
 	var err error
 	switch {
@@ -181,11 +193,11 @@ func (c *C16Case) build(relay string) ([]byte, []byte, error) {
 	var body []byte
 	switch c.Flow {
 	case "BuildAuthBodyPostFromDocument":
-		body, err = sp.BuildAuthBodyPostFromDocument(relay, doc)
+		body, err = render.BuildAuthBodyPostFromDocument(relay, doc)
 	case "BuildLogoutBodyPostFromDocument":
-		body, err = sp.BuildLogoutBodyPostFromDocument(relay, doc)
+		body, err = render.BuildLogoutBodyPostFromDocument(relay, doc)
 	default:
-		body, err = sp.BuildLogoutResponseBodyPostFromDocument(relay, doc)
+		body, err = render.BuildLogoutResponseBodyPostFromDocument(relay, doc)
 	}
 	return body, want, err
 }
